@@ -75,6 +75,34 @@ impl TlsClient {
     }
 }
 
+#[cfg(feature = "djc_tokio_imap_verif")]
+impl<T> Client<T>
+where
+    T: AsyncRead + AsyncWrite + Unpin,
+{
+    pub fn verif_new(io: T) -> Self {
+        Client {
+            transport: ImapCodec::default().framed(io),
+            state: State::NotAuthenticated,
+            request_ids: IdGenerator::new(),
+        }
+    }
+
+    pub fn verif_call<C: Into<Command>>(&mut self, cmd: C) -> ResponseStream<'_, T> {
+        let request_id = self.request_ids.next().unwrap();
+        ResponseStream {
+            client: self,
+            request_id,
+            cmd: cmd.into(),
+            state: ResponseStreamState::Start,
+        }
+    }
+
+    pub fn verif_transport(&mut self) -> &mut Framed<T, ImapCodec> {
+        &mut self.transport
+    }
+}
+
 #[pin_project]
 pub struct ResponseStream<'a, T> {
     #[pin]
